@@ -109,6 +109,15 @@ func Finish(verifDir, tier string, seed int64, t0 time.Time, rep *Report) int {
 		}
 		viol = append(viol, m)
 	}
+	if dump := os.Getenv("VERIF_DUMP"); dump != "" { // debugging aid: all mismatches, one JSON per line
+		if f, err := os.Create(dump); err == nil {
+			for _, m := range rep.Mismatches {
+				b, _ := json.Marshal(m)
+				f.Write(append(b, '\n'))
+			}
+			f.Close()
+		}
+	}
 	ids := make([]string, 0, len(known))
 	for id := range known {
 		ids = append(ids, id)
